@@ -8,6 +8,7 @@ import (
 	"strconv"
 	"strings"
 	"sync"
+	"sync/atomic"
 	"time"
 
 	"github.com/metal-toolbox/auditevent"
@@ -103,9 +104,10 @@ func (c *ctrl) yield(what string) {
 
 // concLog records emitted events as "<ts>/<loggedAs>" and yields to the scheduler at every write.
 type concLog struct {
-	mu  sync.Mutex
-	out []string
-	c   *ctrl
+	mu    sync.Mutex
+	out   []string
+	c     *ctrl
+	quiet bool
 }
 
 func (l *concLog) Encode(v any) error {
@@ -114,7 +116,9 @@ func (l *concLog) Encode(v any) error {
 		l.out = append(l.out, fmt.Sprintf("%d/%s", e.LoggedAt.Unix(), e.Subjects["loggedAs"]))
 		l.mu.Unlock()
 	}
-	l.c.yield("write")
+	if !l.quiet {
+		l.c.yield("write")
+	}
 	return nil
 }
 
@@ -124,6 +128,137 @@ type concResult struct {
 	trace     []string
 	deadlock  bool
 }
+
+// concPost: operations run sequentially, without scheduling points, after all threads have finished
+// (they make state that the emitted events do not show observable, e.g. a session that was never opened)
+var concPost []string
+
+// concPre: operations run sequentially before the threads start (a login already waiting, a session already open)
+var concPre []string
+
+// tracker operation on the real tracker (shared by the threads, the pre and the post phase)
+func trackerOp(tr trackerAPI, op string) {
+	f := strings.Split(op, ":")
+	switch f[0] {
+	case "L":
+		pid, _ := strconv.Atoi(f[1])
+		_ = tr.RemoteLogin(mkLogin(pid, unhex(f[2]), f[3] == "1", time.Now(), f[5]))
+	case "A":
+		ts, _ := strconv.ParseInt(f[1], 10, 64)
+		nargs, _ := strconv.Atoi(f[6])
+		_ = tr.AuditdEvent(mkEvent(ts, unhex(f[2]), f[3], unhex(f[4]), unhex(f[5]), nargs))
+	case "S":
+		tr.DeleteUsersWithoutLoginsBefore(farOrZero(f[1]))
+	case "R":
+		tr.DeleteRemoteUserLoginsBefore(farOrZero(f[1]))
+	}
+}
+
+// gatedLog: the first event write blocks until the gate opens (a slow events output); it is reached
+// while the writing operation holds whatever locks it holds
+type gatedLog struct {
+	mu      sync.Mutex
+	out     []string
+	gate    chan struct{}
+	reached chan struct{}
+	armed   atomic.Bool
+	used    atomic.Bool
+}
+
+func (l *gatedLog) Encode(v any) error {
+	if e, ok := v.(*auditevent.AuditEvent); ok {
+		l.mu.Lock()
+		l.out = append(l.out, fmt.Sprintf("%d/%s", e.LoggedAt.Unix(), e.Subjects["loggedAs"]))
+		l.mu.Unlock()
+	}
+	if l.armed.Load() && l.used.CompareAndSwap(false, true) {
+		close(l.reached)
+		<-l.gate
+	}
+	return nil
+}
+
+// runHold: free-running (no controlled scheduler): thread 0 runs until its first event write, which stalls;
+// meanwhile the other threads are started and given 40 ms (they either finish or wait for thread 0's locks);
+// then the write completes, everything is joined, and the post phase runs. The outcome must be the outcome of
+// some sequential order — an operation that gives up instead of waiting shows here.
+func runHold(threads [][]string) concResult {
+	log := &gatedLog{gate: make(chan struct{}), reached: make(chan struct{})}
+	tr := sessiontracker.NewSessionTracker(auditevent.NewAuditEventWriter(log), zap.NewNop().Sugar())
+	common.VerifHook = nil
+	var res concResult
+	panicked := ""
+	var pmu sync.Mutex
+	guard := func(f func()) {
+		defer func() {
+			if r := recover(); r != nil {
+				pmu.Lock()
+				panicked = strings.ReplaceAll(strings.ReplaceAll(fmt.Sprint(r), " ", "_"), "~", "_")
+				pmu.Unlock()
+			}
+		}()
+		f()
+	}
+	for _, op := range concPre {
+		// the pre phase does not stall: the gate is armed afterwards
+		guard(func() { trackerOp(tr, op) })
+	}
+	log.armed.Store(true)
+	var wg sync.WaitGroup
+	t0done := make(chan struct{})
+	wg.Add(1)
+	go func() {
+		defer wg.Done()
+		defer close(t0done)
+		guard(func() {
+			for _, op := range threads[0] {
+				trackerOp(tr, op)
+			}
+		})
+	}()
+	select {
+	case <-log.reached:
+	case <-t0done:
+	case <-time.After(2 * time.Second):
+	}
+	for _, th := range threads[1:] {
+		th := th
+		wg.Add(1)
+		go func() {
+			defer wg.Done()
+			guard(func() {
+				for _, op := range th {
+					trackerOp(tr, op)
+				}
+			})
+		}()
+	}
+	time.Sleep(40 * time.Millisecond)
+	close(log.gate)
+	joined := make(chan struct{})
+	go func() { wg.Wait(); close(joined) }()
+	select {
+	case <-joined:
+	case <-time.After(5 * time.Second):
+		res.deadlock = true
+	}
+	if !res.deadlock {
+		for _, op := range concPost {
+			guard(func() { trackerOp(tr, op) })
+		}
+	}
+	log.mu.Lock()
+	res.outcome = strings.Join(log.out, ",")
+	log.mu.Unlock()
+	if res.outcome == "" {
+		res.outcome = "-"
+	}
+	if panicked != "" {
+		res.outcome = "PANIC:" + panicked
+	}
+	return res
+}
+
 
 // runSchedule executes the program once under the given choice prefix (0 beyond it).
 func runSchedule(system string, threads [][]string, choices []int) concResult {
@@ -136,6 +271,13 @@ func runSchedule(system string, threads [][]string, choices []int) concResult {
 	} else {
 		h = health.NewHealth()
 	}
+	if system == "tracker" {
+		log.quiet = true // no scheduling points yet
+		for _, op := range concPre {
+			trackerOp(tr, op)
+		}
+		log.quiet = false
+	}
 	common.VerifHook = c.hook
 	defer func() { common.VerifHook = nil }()
 	n := len(threads)
@@ -144,6 +286,30 @@ func runSchedule(system string, threads [][]string, choices []int) concResult {
 	panicked := ""
 	for range threads {
 		c.resume = append(c.resume, make(chan struct{}))
+	}
+	execOp := func(op string, i int) {
+				f := strings.Split(op, ":")
+		switch f[0] {
+		case "L":
+			pid, _ := strconv.Atoi(f[1])
+			_ = tr.RemoteLogin(mkLogin(pid, unhex(f[2]), f[3] == "1", time.Now(), f[5]))
+		case "A":
+			ts, _ := strconv.ParseInt(f[1], 10, 64)
+			nargs, _ := strconv.Atoi(f[6])
+			_ = tr.AuditdEvent(mkEvent(ts, unhex(f[2]), f[3], unhex(f[4]), unhex(f[5]), nargs))
+		case "S":
+			tr.DeleteUsersWithoutLoginsBefore(farOrZero(f[1]))
+		case "R":
+			tr.DeleteRemoteUserLoginsBefore(farOrZero(f[1]))
+		case "add":
+			h.AddReadiness(unhex(f[1]))
+		case "ready":
+			h.OnReady(unhex(f[1]))
+		case "get":
+			answers[i] = append(answers[i], renderReadyz(h))
+		case "isready":
+			answers[i] = append(answers[i], fmt.Sprintf("R:%v", h.IsReady()))
+		}
 	}
 	for i := range threads {
 		i := i
@@ -162,28 +328,7 @@ func runSchedule(system string, threads [][]string, choices []int) concResult {
 				}
 			}()
 			for _, op := range threads[i] {
-				f := strings.Split(op, ":")
-				switch f[0] {
-				case "L":
-					pid, _ := strconv.Atoi(f[1])
-					_ = tr.RemoteLogin(mkLogin(pid, unhex(f[2]), f[3] == "1", time.Now(), f[5]))
-				case "A":
-					ts, _ := strconv.ParseInt(f[1], 10, 64)
-					nargs, _ := strconv.Atoi(f[6])
-					_ = tr.AuditdEvent(mkEvent(ts, unhex(f[2]), f[3], unhex(f[4]), unhex(f[5]), nargs))
-				case "S":
-					tr.DeleteUsersWithoutLoginsBefore(farOrZero(f[1]))
-				case "R":
-					tr.DeleteRemoteUserLoginsBefore(farOrZero(f[1]))
-				case "add":
-					h.AddReadiness(unhex(f[1]))
-				case "ready":
-					h.OnReady(unhex(f[1]))
-				case "get":
-					answers[i] = append(answers[i], renderReadyz(h))
-				case "isready":
-					answers[i] = append(answers[i], fmt.Sprintf("R:%v", h.IsReady()))
-				}
+				execOp(op, i)
 			}
 			c.events <- schedEvent{i, "done", ""}
 		}()
@@ -238,6 +383,23 @@ func runSchedule(system string, threads [][]string, choices []int) concResult {
 			e := ev
 			waiting[ev.tid] = &e
 		}
+	}
+	if !res.deadlock && len(concPost) > 0 {
+		common.VerifHook = nil
+		log.quiet = true
+		func() {
+			defer func() {
+				if r := recover(); r != nil {
+					panicMu.Lock()
+					panicked = strings.ReplaceAll(strings.ReplaceAll(fmt.Sprint(r), " ", "_"), "~", "_")
+					panicMu.Unlock()
+				}
+			}()
+			answers = append(answers, nil)
+			for _, op := range concPost {
+				execOp(op, n)
+			}
+		}()
 	}
 	if system == "tracker" {
 		log.mu.Lock()
@@ -414,6 +576,24 @@ func init() {
 			}
 			var fixed []int
 			haveFixed := false
+			concPost, concPre = nil, nil
+			hold := false
+			for _, x := range f[4:] {
+				if strings.HasPrefix(x, "post=") {
+					concPost = strings.Split(x[5:], ";")
+				}
+				if strings.HasPrefix(x, "pre=") {
+					concPre = strings.Split(x[4:], ";")
+				}
+				if x == "hold=1" {
+					hold = true
+				}
+			}
+			if hold && f[1] == "tracker" {
+				r := runHold(threads)
+				fmt.Fprintf(out, "%s outcomes=%s@ n=1 exhaustive=0 shape=ok deadlock=%v\n", f[0], r.outcome, r.deadlock)
+				continue
+			}
 			for _, x := range f[4:] {
 				if strings.HasPrefix(x, "sched=") {
 					haveFixed = true
